@@ -33,4 +33,8 @@ CLAIMED['C02'] = ('DESIGN.md 4/C02', 'Relational obligations over pairs of symbo
     'linearity with symbolic alpha, beta and two symbolic records (polynomial identity), causality, shift, period '
     'order/batch independence (identical terms) and refinement invariance (all records, tolerance for the two '
     'different double propagators), n<=8, stated (T/dt, xi) grid.')
+CLAIMED['C03'] = ('DESIGN.md 4/C03', 'Spectra shown to be absmax of the (C01) response terms by identical-term comparison, absmax = '
+    'max|x| decided for every x (free arrays up to 2x12), pseudo relations with the true 2*pi, the 6*dt PGA cut incl. '
+    'the boundary, container kinds, the AccSignal target-step/interpolation rule for min_dt_ratio in {1,2,4,8}, and the '
+    'energy spectra as their defining sums; symbolic records n<=5, stated period/damping grid.')
 NOT_APPLICABLE = {}
